@@ -31,7 +31,7 @@ PROPS = {
     "C01": P(
         "runtime differential monitor: real seek+apply_keystream vs reference ChaCha, canary-checked, on all forced SIMD backends and debug/release/portable/no-std/ASan builds",
         "Exploration: every executed (type, backend, key, nonce, position, length) case is compared byte-for-byte with an independent reference ChaCha; "
-        "boundary-biased sampling of positions and lengths, all six dispatch levels forced through hook H1.",
+        "boundary-biased sampling of positions and lengths (incl. requests of 4-300 KiB, slices at every 16-byte alignment, key/nonce at odd addresses, calls cut in two or three, a pre-history on the instance), all six dispatch levels forced through hook H1.",
         "Trusts the reference model and the forcing hook; keys/nonces/positions are sampled.",
         "case = (cipher type, forced backend, key/nonce pattern seed, absolute position, length), drawn with boundary bias (every pos mod 64; block indices 0..4, 2^32+-5, "
         "the last blocks of the stream, random); one evaluation = one seek+apply_keystream compared with the reference and canary-checked; distinct = distinct descriptor, "
@@ -41,13 +41,13 @@ PROPS = {
         "runtime history monitor: random seek/apply/re-apply/current_pos histories checked op by op against a shadow position model + reference keystream, debug and release",
         "Exploration of histories: each op's return value, every produced byte and the reported position are decided by a 15-line shadow model (absolute position, stream limit) and the reference keystream.",
         "Trusts the reference model; histories are sampled with bias to mid-block seeks, block/stream boundaries and every SeekNum type.",
-        "case = one history of 1..40 ops over {seek(T,p), apply(n), re-apply at the same position, current_pos::<T>} on one cipher instance; evaluations = ops whose outcome the model decided; "
+        "case = one history of 1..40 ops over {seek(T,p), apply(n), re-apply at the same position, current_pos::<T>, snapshot / restore of the public state field} on one cipher instance, or one single apply_keystream call on more than 2^32 bytes (compared in windows); evaluations = ops whose outcome the model decided; "
         "distinct = distinct history descriptor, non-trivial = at least 2 ops of 2 different kinds",
         (200000, 5000000), [REF, SAMPLED, "positions beyond 2^64 on 64-bit-counter ciphers are outside the property's wording: either outcome is accepted there"],
         primary=("std-rel", "std-dbg"), require_classes=["state=pending", "state=buffered", "state=empty"]),
     "C03": P(
         "runtime differential monitor over build configurations: one seeded transcript executed on every forced backend of every build (std dispatch, portable, five no-std arms) vs reference models, plus cross-configuration digest comparison",
-        "Exploration: the same transcript (ChaCha wide+narrow, BLAKE x4, JH digests, JH F8) is run in 7+ build configurations and 6 forced dispatch levels; each output is compared with the reference and the rolling digests of all configurations are cross-checked.",
+        "Exploration: the same transcript (ChaCha wide+narrow, BLAKE x4, JH digests, JH F8, and a generic vector kernel written against the Machine traits with distinct lanes through every constructor) is run in 7+ build configurations and 6 forced dispatch levels; each output is compared with the reference and the rolling digests of all configurations are cross-checked.",
         "Trusts the reference models, hook H1 and that -Ctarget-feature selects the no-std arm named in the evidence.",
         "case = (algorithm kind, seed) x (configuration, forced backend); one evaluation = one output compared with the reference; distinct = distinct (case, backend) descriptor; every cell of the configuration x backend x algorithm matrix must be non-zero",
         (20000, 400000), [REF, FORCE, SAMPLED], primary=("std-rel", "portable-rel"),
@@ -59,11 +59,11 @@ PROPS = {
         "case = (variant, forced backend, length, content pattern); systematic sweep of every length 0..3*bs+8 x 3 contents partitioned over shards, then random lengths up to 20 KB; distinct = distinct descriptor (all have a distinct message)",
         (20000, 500000), [REF, FORCE, SAMPLED], require_classes=["Blake384/", "Blake512/", "Blake224/", "Blake256/"]),
     "C05": P(
-        "runtime differential monitor: 102 Skein instantiations (34 output sizes, every residue mod 8, x 3 state sizes) vs reference UBI/Threefish, every length 0..3*block+8 and random messages",
+        "runtime differential monitor: 153 Skein instantiations (51 output sizes: every residue mod 8, residues mod 2^8 and 2^16 around the block sizes, up to 65600 bytes; x 3 state sizes) vs reference UBI/Threefish, every length 0..3*block+8 and random messages",
         "Exploration: every digest is compared with an independent Skein 1.3 built on an independent Threefish (forward permutation, own rotation table).",
-        "Trusts the reference Skein (checked against the Skein 1.3 KATs and Threefish submission vectors). N is a type parameter: 34 values are instantiated.",
-        "case = (state size, N, length, content pattern); systematic sweep over lengths for 10 values of N per state size, random for all 34; distinct = distinct descriptor",
-        (20000, 500000), [REF, SAMPLED, "output sizes outside the instantiated menu of 34 values are not executed"]),
+        "Trusts the reference Skein (checked against the Skein 1.3 KATs and Threefish submission vectors). N is a type parameter: 51 values are instantiated.",
+        "case = (state size, N, length, content pattern); systematic sweep over lengths for 10 values of N per state size, random for all 51; messages are structured (records with a common header, repeated / alternating blocks, one-bit, padding look-alikes) as well as random, read from odd addresses, fed one-shot, in partitions (cuts on block multiples), through clone / clone_from, on a long-lived reused instance; distinct = distinct descriptor",
+        (20000, 500000), [REF, SAMPLED, "output sizes outside the instantiated menu of 51 values are not executed"]),
     "C06": P(
         "runtime differential monitor: JH digests and single F8 compressions (public Compressor and f8_impl::<M> on every machine) vs nibble-oriented reference E8",
         "Exploration: digests over every length 0..200 and random; F8 on random and one-hot/one-flip (state, block) pairs on every backend, compared with the specification-shaped (non-bit-sliced) reference.",
@@ -81,13 +81,13 @@ PROPS = {
         "runtime history monitor: random update/clone/reset/finalize_reset/finalize histories over 15 hash types, each instance shadowed by the bytes fed to it; digests vs reference and one-shot",
         "Exploration of histories: at every finalize the digest must equal the reference digest of the shadow bytes and the implementation's own one-shot digest.",
         "Trusts the reference models; piece lengths are biased to buffer boundaries.",
-        "case = one history of 2..24 ops over up to 4 live clones of one hash type; evaluations = finalizations compared; distinct = distinct history, non-trivial = >= 3 ops and at least one of clone/reset/finalize_reset/empty piece",
+        "case = one history of 2..24 ops {update, chain, clone, clone_from(dst, src), reset, three finalize_reset flavours, finalize} over up to 4 live clones of one hash type, one in six starting late in a very long message (hook H2); evaluations = finalizations compared; distinct = distinct history, non-trivial = >= 3 ops and at least one of clone/reset/finalize_reset/empty piece",
         (20000, 400000), [REF, SAMPLED], primary=("std-rel", "std-dbg")),
     "C09": P(
         "runtime differential monitor: Threefish encrypt_block vs reference Threefish, unrolled and no_unroll builds, debug and release",
         "Exploration: every ciphertext is compared with an independent Threefish (forward permutation pi, own tables).",
         "Trusts the reference Threefish (checked against the NIST-submission vectors).",
-        "case = (block size, operand kind {zero, ones, one-hot, carry words, random}, seed, new()/with_tweak); distinct = distinct descriptor",
+        "case = (block size, operand kind {zero, ones, one-hot, carry words, random, block cancels the first subkey, block equals the final subkey, one word equals a subkey word, degenerate key schedule}, seed, new()/with_tweak), blocks processed in place at byte offsets 0..15 of a larger buffer, one case in four also through encrypt_blocks / decrypt_blocks / *_par_blocks; distinct = distinct descriptor",
         (100000, 5000000), [REF, SAMPLED], primary=("std-rel", "nounroll-rel"), require_classes=["config=no_unroll-rel", "config=unrolled-rel"]),
     "C10": P(
         "runtime round-trip + differential monitor: decrypt(encrypt(x)) = x, encrypt(decrypt(x)) = x and decrypt vs the reference inverse, unrolled and no_unroll",
@@ -102,13 +102,13 @@ PROPS = {
         "case = one history (as C02) with positions within a few blocks of the boundaries and request lengths ending 1 short of / at / past the limit, all seek types and out-of-range values",
         (200000, 5000000), [REF, SAMPLED], primary=("std-rel", "std-dbg"), require_classes=["state=pending/ietf-end", "seekty=u128/out-of-range", "seekty=i32/out-of-range"]),
     "C12": P(
-        "runtime table monitor: every (machine, vector type, operation) triple required by the Machine trait bounds evaluated on structured + one-hot + random operands against a scalar lane model",
+        "runtime table monitor: every (machine, vector type, operation) triple required by the Machine trait bounds, plus the arithmetic the portable backend alone exposes on the 128-bit-word types, evaluated on structured + carry-chain + one-hot + random operands against a scalar lane model",
         "Exploration per triple; for the bit-permutation operations (rotates, shuffles, swaps, bswap) all one-hot inputs plus zero are evaluated, which determines a linear operation completely.",
         "Trusts the scalar lane model (plain integer arithmetic). Machines are instantiated inside #[target_feature] wrappers on an AVX2 host.",
         "case = (machine, type, op) with a seeded operand batch; evaluations = operands; distinct = distinct (machine, type, op, seed); the count of triples exercised is reported",
         (200000, 5000000), ["scalar lane model", SAMPLED], primary=("std-rel", "portable-rel")),
     "C13": P(
-        "runtime table monitor: every construction / read-back path (lanes, storage views, insert/extract at every index, transpose4, to_scalars, LE/BE byte I/O, vzip) against little-endian packing",
+        "runtime table monitor: every construction / read-back path (lanes, storage views, the direct x86 view conversions u128xN -> u32x4xN / u64x2xN, insert/extract at every index, transpose4, to_scalars, LE/BE byte I/O, vzip) against little-endian packing",
         "Exploration per (machine, type, path) with position-revealing byte patterns, one-hot and random values.",
         "Trusts the lane model; storage views offered by only one backend are checked where offered.",
         "case = (machine, type, path) with a seeded batch; evaluations = values moved",
@@ -129,26 +129,26 @@ PROPS = {
         "fault monitor: OS guard pages (mmap/mprotect) around every byte-slice argument at every alignment with inputs sealed read-only, plus ASan, Miri (Stacked Borrows) and valgrind memcheck runs of the same workload",
         "Exploration: a single byte read or written outside a slice, an aligned access to an unaligned address or a write to an input faults and kills the worker, which the driver attributes to the announced case; results also compared with the reference.",
         "Guard pages see accesses before the first / after the last byte; in-slice misbehaviour is covered by the result comparison. ASan/Miri/memcheck as configured in DESIGN section 5.",
-        "case = (API family, algorithm/machine, backend, seed, length, placement {tail, head, interior offset 0..63}); distinct = distinct descriptor",
+        "case = (API family, algorithm/machine, backend, seed, length, placement {tail, head, interior offset 0..63}); vector load/store cases also pass slices of six wrong lengths (a refusal is fine, a call that returns must have stayed inside); distinct = distinct descriptor",
         (100000, 3000000), [REF, "guard pages detect out-of-slice accesses only at page granularity on the far side (head placement protects the front, tail placement the back)"],
         require_classes=["cipher/", "hash/", "tf/", "vec/", "f8/", "refill/", "hash/align=1", "cipher/align=63"]),
     "C17": P(
-        "invariant-at-hook monitor (H2 counter conservation during real streaming across 2^8/2^16 blocks and 2^32 bits) + fast-forward differential against reference models with settable counters",
+        "invariant-at-hook monitor (H2 counter conservation during real streaming across 2^8/2^16 blocks and 2^32 bits, and after single update() calls of more than 2^32 bytes on a ring-mapped window) + fast-forward differential against reference models with settable counters, instance reused after finalize_reset()/reset()",
         "Exploration: counters are observed after every update of real multi-hundred-MiB streams, and boundary crossings beyond what can be streamed are reached by overwriting both the implementation's and the reference's counter.",
         "Fast-forwarding assumes the hash state depends on the past only through (chaining value, counter, buffer), which is what the formats define.",
-        "case = one real stream (hash, total, piece size) or one fast-forward (hash, k real blocks, counter value, tail length); evaluations = update calls observed / fast-forward digests compared",
+        "case = one real stream (hash, total, piece size), one single update() call of 2^32+k / 2^33+k bytes (counter, digest vs the same bytes in pieces, reference for BLAKE/Skein), or one fast-forward (hash, k real blocks, counter value, tail length, then reuse of the instance); evaluations = update calls observed / fast-forward digests compared",
         (3000, 60000), [REF, "between 2^32 and the format limits the counter is reached by hook H2, not by hashing exabytes"],
         require_classes=["stream/Groestl224", "stream/Blake256", "ff/Blake-bs128/2^64-bits-low-word-carry", "ff/Groestl-bs64/2^32-blocks", "ff/Skein-bs64/2^32-bytes", "ff/Jh-bs64/2^32-bits"]),
     "C18": P(
         "cold-process thread stress with barrier-released first calls compared with reference results; ThreadSanitizer build and Miri data-race detector (many seeds) on the same worker; interleaved-instances shadow check",
         "Exploration of schedules: each trial is a fresh process in which T threads make their first calls concurrently (lockstep or random order); the evidence counts entry points that were really entered concurrently.",
         "Race detection is limited to what TSan / Miri intercept and to schedules that occurred; weak-memory outcomes beyond x86-TSO / Miri's model are out of reach.",
-        "case = one cold process (threads, order mode, seed) or one interleaving of up to 12 instances; evaluations = results compared; distinct_nontrivial = distinct observed before/after interleavings of concurrent first calls at a one-time-initialised entry point",
+        "case = one cold process (threads, order mode, seed; one in three a bulk trial with 4-64 KiB per cipher call) or one interleaving of up to 12 instances; evaluations = results compared; distinct_nontrivial = distinct observed before/after interleavings of concurrent first calls at a one-time-initialised entry point",
         (20000, 1000000), [REF, "schedules are sampled by the OS / Miri scheduler, not enumerated"],
         require_classes=["first-call-overlap/Groestl256/", "interleave/instances="]),
     "C19": P(
         "runtime table monitor: every public method of the five ppv-null types against plain wrapping scalar arithmetic, debug (overflow-checked) and release",
-        "Exploration per (type, method) on zero / all-ones / one-hot / MAX+1 / random operands and every rotation amount 1..bits-1.",
+        "Exploration per (type, method) on zero / all-ones / one-hot / MAX+1 / random operands and every rotation amount 1..bits-1; the operand of a value-returning method is used again afterwards.",
         "Trusts plain scalar arithmetic.",
         "case = (type, method) with a seeded batch; evaluations = operand tuples",
         (50000, 2000000), ["plain wrapping scalar arithmetic as the oracle", SAMPLED], primary=("std-rel", "std-dbg")),
